@@ -3,7 +3,7 @@
 # of /repo (/tmp/mutrepo) that has seeded/<name>/patch.diff applied (or nothing, for "clean"); /repo itself is not touched
 N=$1; shift
 [ -d /tmp/mutrepo ] || git -C /repo worktree add -q --detach /tmp/mutrepo HEAD
-git -C /tmp/mutrepo checkout -q --detach $(git -C /repo rev-parse HEAD) 2>/dev/null
+git -C /tmp/mutrepo reset -q --hard 2>/dev/null; git -C /tmp/mutrepo checkout -q --detach $(git -C /repo rev-parse HEAD) 2>/dev/null
 git -C /tmp/mutrepo checkout -q -- .
 if [ "$N" != "clean" ]; then git -C /tmp/mutrepo apply /verif/seeded/$N/patch.diff || { echo "PATCH DOES NOT APPLY"; exit 2; }; fi
 DDS_REPO=/tmp/mutrepo "$@"
